@@ -61,9 +61,9 @@ REPL = ["peg_rule:peg_rule_stub", "janet_array_push:h_array_push", "janet_buffer
         "janet_to_string_b:h_to_string_b", "janet_buffer_push_bytes:h_buffer_push_bytes", "janet_stringv:h_stringv",
         "janet_scan_number_base:h_scan_number_base", "memcmp:h_memcmp", "safe_memcpy:h_safe_memcpy", "janet_array:h_array",
         "get_linecol_from_position:h_linecol", "janet_call:h_call"]
-HLOOPS = {"peg_wf.0": 25, "peg_wf_args.0": 25, "peg_tailnot.0": 25, "peg_inv_consts.0": 4, "peg_inv_tcaps.0": 5}
+HLOOPS = {"peg_wf_chain.0": 6, "peg_wf_args.0": 25, "peg_inv_consts.0": 4, "peg_inv_tcaps.0": 5}
 ASSUMES = ["recursive calls of peg_rule obey peg_rule's own contract (stub peg_rule_stub: asserts the precondition, assumes the postcondition that this same harness asserts for the real body - induction over the recursion)",
-           "bytecode is wf_peg (every instruction start well-formed, rule operands are instruction starts, constant operands in range, argument index >= 0, readint width <= 8): established by the compiler's emitters / peg_unmarshal",
+           "bytecode is wf_peg along the top rule and its tail-call chain (instruction well-formed, rule operands are instruction starts, constant operands in range, argument index >= 0, readint width <= 8): established by the compiler's emitters / peg_unmarshal",
            "capture stacks have capacity 4 (accumulator 6) in the harness: paths that push beyond are cut; contents of pushed values are arbitrary",
            "tagged string captures refer to a valid string object; C functions stored as constants accept (argc, argv)",
            "janet_stringv / janet_scan_number_base / memcmp / safe_memcpy / janet_array / get_linecol_from_position / janet_call replaced by stubs that assert readability of every (pointer,length) pair they are given and return arbitrary values",
